@@ -2251,8 +2251,9 @@ class Component_Decl(Base):  # R442
             char_length = Char_Length(char_length)
         if newline.startswith("="):
             init = Component_Initialization(newline)
-        else:
-            assert newline == "", repr(newline)
+        elif newline:
+            # Unexpected text after the component declaration: no match.
+            return
         return name, array_spec, char_length, init
 
     def tostr(self):
@@ -5700,7 +5701,9 @@ class Deallocate_Stmt(StmtBase):  # R635
         opts = None
         if i != -1:
             j = line[:i].rfind(",")
-            assert j != -1, repr((i, j, line))
+            if j == -1:
+                # An option without a preceding allocate-object: no match.
+                return
             opts = Dealloc_Opt_List(repmap(line[j + 1 :].lstrip()))
             line = line[:j].rstrip()
         return Allocate_Object_List(repmap(line)), opts
